@@ -269,8 +269,10 @@ def rule_order(repo: Repo, rid: str = "C12.order") -> RuleResult:
                                            f"rebuilt children come from source children {sorted(i0)} and {sorted(i1)}; expected [0] and [1]", node=call))
                     else:
                         # built from the parsed list: positions 1 and 2 of the AST
-                        a0 = {s_ for pth in e0 for s_ in pth if s_.startswith("item:") and pth[0].startswith("param:")}
-                        a1 = {s_ for pth in e1 for s_ in pth if s_.startswith("item:") and pth[0].startswith("param:")}
+                        # position in the parsed list: by index or by unpacking (`op, left, right = ast`)
+                        pos = lambda paths: {"item:" + s_.split(":", 1)[1] for pth in paths for s_ in pth
+                                             if (s_.startswith("item:") or s_.startswith("unpack:")) and pth[0].startswith("param:")}
+                        a0, a1 = pos(e0), pos(e1)
                         if (a0 or a1) and once(call, "construct"):
                             r.site(L.site(f, call, "tree construction"))
                             seen_kinds.add("construct")
@@ -475,6 +477,6 @@ def rule_leaf(repo: Repo) -> RuleResult:
 
 def rules(repo: Repo, tier: str) -> List[RuleResult]:
     from . import c13
-    return [c13.rule_round(repo, "C12.round", ["NumericalExpressionTree._convert_to_pddl", "NumericalExpressionTree._convert_to_mathematical"]),
+    return [c13.rule_round(repo, "C12.round", ["NumericalExpressionTree.to_pddl", "NumericalExpressionTree.to_mathematical"]),
             c13.rule_digits(repo, "C12.digits", (NE,)), rule_arith(repo), rule_compare(repo), rule_assign(repo), rule_order(repo), rule_env(repo), rule_tables(repo),
             rule_leaf(repo)]
